@@ -2903,6 +2903,8 @@ def write_tsv(
 
 
 def _get_shacl_line(prefix: str, uri_prefix: str, pattern: str | None = None) -> str:
+    prefix = prefix.replace("\\", "\\\\")
+    uri_prefix = uri_prefix.replace("\\", "\\\\")
     line = f'    [ sh:prefix "{prefix}" ; sh:namespace "{uri_prefix}"^^xsd:anyURI '
     if pattern:
         pattern = pattern.replace("\\", "\\\\")
